@@ -56,3 +56,20 @@ def w_F3(gi):
 
 
 WITNESS.update({"F2": w_F2, "F3": w_F3})
+
+
+def w_F21(gi):
+    g = Gram(gi)
+    g.tags.add("lr")
+    NN, MINUS, X = 110, 45, 120
+    d_body = g.action(g.lit([NN]), err=True)
+    rec = g.seq([g.label(g.ref(2)), g.lit([MINUS]), g.label(g.ref(3)), g.un("not", g.lit([X]))])
+    s_body = g.seq([g.label(g.ref(2)), g.lit([MINUS]), g.label(g.ref(3)), g.lit([X])])
+    g.rules = [s_body, g.choice([rec, g.ref(3)]), d_body]
+    g.lr = [0, 1, 0]
+    g.disp = ["", "", ""]
+    g.compute_args()
+    return g, [[NN, MINUS, NN, X]], dict(memo=True), ("nerrs", "err", "store")
+
+
+WITNESS.update({"F21": w_F21})
